@@ -65,20 +65,21 @@ def jobs(ctx):
             for pre, suf in EXTRA_QUICK.get(d, []):
                 combos.append((pres.index(pre), sufs.index(suf), 1, 0))
         else:
-            # thorough: every prefix with three suffixes (none, the matching one, the last), 1..2 (3) bytes; the bare bytes one longer
+            # thorough: every prefix with its matching suffix (json/simple also without suffix, up to 2 bytes), the bare bytes one longer than quick
             for pi in range(len(pres)):
-                for si in sorted({0, min(pi, len(sufs) - 1), len(sufs) - 1}):
-                    nmax = (2 if pi == 0 else 1) if heavy else 3
+                for si in sorted({min(pi, len(sufs) - 1)} | (set() if heavy else {0})):
+                    nmax = (2 if pi == 0 else 1) if heavy else 2
                     for n in range(0 if pi + si == 0 else 1, nmax + 1):
-                        combos.append((pi, si, n, 1 if n >= (2 if heavy else 3) else 0))
+                        combos.append((pi, si, n, 1 if n >= 2 else 0))
             for pre, suf in EXTRA_QUICK.get(d, []):
-                combos.append((pres.index(pre), sufs.index(suf), 1 if heavy else 2, 1))
-            combos.append((0, 0, 3 if heavy else 4, 1))
+                combos.append((pres.index(pre), sufs.index(suf), 1, 0))
+            if not heavy:
+                combos.append((0, 0, 3, 1))
         for pi, si, n, ascii_ in combos:
             for nn in (range(0, n + 1) if (pi, si) == (0, 0) else (n,)):
                 out.append(Job(rel, pkg, f, "VerifC12Lexer", {"n": nn, "prefix": pi, "suffix": si, "ascii": ascii_},
                                tag="%s prefix=%d suffix=%d n=%d%s" % (d, pi, si, nn, " ascii" if ascii_ else ""), cost=(12.0 if heavy else 6.0) ** nn + 3,
-                               flags=["-looplimit", "100000", "-conccap", "300"], deadline=None if q else 1200))
+                               flags=["-looplimit", "100000", "-conccap", "300"], deadline=None if q else 900))
         out.append(Job(rel, pkg, f, "VerifC12Lexer", {"n": 1, "prefix": 0, "suffix": 0, "ascii": 1}, tag=d + " twin", twin=True, flags=["-looplimit", "100000", "-conccap", "300"]))
     return out
 
@@ -90,7 +91,7 @@ def describe(ctx):
                        "len+3 times: end-of-input must be reached and repeat, every other token is non-empty, tokens come in source order without overlap and inside the source, "
                        "Line() equals 1 + the number of newlines before the token's first byte (Column() likewise for tm), and for json/simple the skipped text between tokens is "
                        "whitespace (and complete comments).",
-        "bounds": {"symbolic bytes": "quick: k<=2 free bytes (k<=3 ASCII for json/simple) without context, 1 free byte inside 3 contexts per lexer; thorough: k<=3 (json, simple) / 1 (test, tm, js) after every prefix with three suffixes (none, matching, last), 4 (3) ASCII bytes without context",
+        "bounds": {"symbolic bytes": "quick: k<=2 free bytes (k<=3 ASCII for json/simple) without context, 1 free byte inside 3 contexts per lexer; thorough: every prefix with its matching suffix, k<=2 (json, simple) / 1 (test, tm, js); 3 (2) ASCII bytes without context",
                    "contexts": "5-9 prefixes x 3-6 suffixes per lexer (thorough)"},
         "outside": ["longer symbolic parts", "generated lexers of random grammars (C11 corpus)", "gap contents of test/tm/js (their space rules are state dependent)"],
         "trusted": ["go/ssa", "symgo executor", "z3"],
